@@ -1986,8 +1986,9 @@ impl<E: Effect> Executor<E> {
         let first = &values[0];
         let all_equal = values.iter().all(|value| self.values_equal(first, value));
 
+        // The verdict, not the compared value: equal nils must not read as a failed match.
         let result = if all_equal {
-            first.clone()
+            Value::ok()
         } else {
             Value::nil()
         };
